@@ -8,6 +8,7 @@ from simkit.core import Unsimulated as core_Unsimulated
 
 fu = None        # boltons.fileutils
 DIR = "/sim/dir"
+SNAPSHOT_LINK = 'snapshot-of-dest.lnk'
 _VERIF_ROOT = os.path.dirname(os.path.dirname(os.path.abspath(__file__)))
 
 
@@ -161,7 +162,13 @@ def run_save(case, plan=None, log=None, hooks=None, fs=None, only_warmup=False):
                 if spec.get('data') is not None:
                     fs.preload(DIR + '/' + spec['symlink'], bytes.fromhex(spec['data']), spec['mode'])
             else:
-                fs.preload(path, bytes.fromhex(spec['data']), spec['mode'])
+                ino = fs.preload(path, bytes.fromhex(spec['data']), spec['mode'])
+                if spec.get('hardlink'):
+                    # the file has a second name (a cp -l snapshot, a hard-linked backup tree)
+                    other = fs.abspath(DIR + '/' + SNAPSHOT_LINK)
+                    fs.dir[other] = ino.ino
+                    fs.initial_dir[other] = ino.ino
+                    ino.nlink = 2
     sim = simfs.Sim(fs, plan, log, blksize=case.get('blksize', 8192))
     sim.watch = {dest_abs, part_abs}
     if hooks:
@@ -327,6 +334,8 @@ def gen_workload(rng, faults=False):
     if rng.random() < 0.6:
         case['dest_initial'] = {'data': bytes(rng.randrange(256) for _ in range(rng.randint(0, 12))).hex(),
                                 'mode': rng.choice([0o600, 0o644, 0o664, 0o444])}
+        if rng.random() < 0.08:
+            case['dest_initial']['hardlink'] = True      # the destination has a second hard link
         if rng.random() < 0.12:
             # legal but odd modes: setuid/setgid/sticky bits, no owner bits, nothing at all
             case['dest_initial']['mode'] = rng.choice([0o4755, 0o2750, 0o1644, 0o6711, 0o040, 0o004, 0o066, 0o000, 0o007])
@@ -444,6 +453,8 @@ def run_real(case):
                 with open(target, 'wb') as fh:
                     fh.write(bytes.fromhex(spec['data']))
                 os.chmod(target, spec['mode'])
+                if spec.get('hardlink'):
+                    os.link(target, os.path.join(d, SNAPSHOT_LINK))
         os.chdir(d)
         rec = _RecOS()
         fu.os = rec
@@ -522,6 +533,8 @@ def real_crash_enumeration(case, max_points=40):
                 with open(dest_abs, 'wb') as fh:
                     fh.write(old)
                 os.chmod(dest_abs, case['dest_initial']['mode'])
+                if case['dest_initial'].get('hardlink'):
+                    os.link(dest_abs, os.path.join(d, SNAPSHOT_LINK))
             pid = os.fork()
             if pid == 0:
                 try:
